@@ -40,7 +40,7 @@ def case_strategy(draw):
     if action == "pass":
         d = draw(rich.design(num_pool=tuple(rich.NUM_POINTWISE + EXTRA_NUM), cat_pool=tuple(rich.CAT_PLAIN), response=draw(st.sampled_from(["y", "np.abs(y)"]))))
     else:
-        d = draw(rich.design(num_pool=tuple(rich.NUM + EXTRA_NUM), response=draw(st.sampled_from(["y", "y", "np.abs(y)", "h", "g['g1']"]))))
+        d = draw(rich.design(num_pool=tuple(rich.NUM + EXTRA_NUM), cat_pool=tuple(a for a in rich.CAT if "levels=" not in a), response=draw(st.sampled_from(["y", "y", "np.abs(y)", "h", "g['g1']"]))))
         if rich.bases(d["response"]) & rich.used_columns(dict(d, response=None)):
             d = dict(d, response="y")
             d["formula"] = rich.render(d)
